@@ -63,9 +63,10 @@ def magnitude_bound(term):
 class UnitTwin(sim.TwinHarness):
     """A: SI units everywhere; B: the seeded unit assignment"""
 
-    def __init__(self, topo, assignment, schedule=(('run', 3),), control=None, stop=None, tag='', schedule_b=None):
+    def __init__(self, topo, assignment, schedule=(('run', 3),), control=None, stop=None, tag='', schedule_b=None, opt=None):
         sched = tuple(schedule)
-        super().__init__(topo, schedule_a=sched, schedule_b=tuple(schedule_b) if schedule_b else sched, control=control, tag=tag)
+        super().__init__(topo, schedule_a=sched, schedule_b=tuple(schedule_b) if schedule_b else sched, control=control, tag=tag,
+                         opt=opt)
         self.assignment = dict(assignment)
         self.stop = stop
         self.name = 'unittwin:%s:%s%s' % (topo, ','.join('%s=%s' % kv for kv in sorted(self.assignment.items())), tag)
@@ -93,7 +94,7 @@ class UnitTwin(sim.TwinHarness):
         self._thr_unit = None
         a = self._run_one(env, self.schedule_a)
         A = self.assignment
-        self.units = {k: A[k] for k in ('J', 'w0', 'Tmax', 'i', 'i0u', 'imaxu') if k in A}
+        self.units = {k: A[k] for k in A if k in ('J', 'w0', 'Tmax', 'i', 'i0u', 'imaxu') or k.startswith('opt_')}
         self.init_units = {k: A[k] for k in ('pos', 'spd') if k in A}
         self.dt_unit = A.get('dt', 'sec')
         self._thr_unit = A.get('thr')
@@ -250,6 +251,16 @@ def specs(tier, seed):
             a.pop('i', None)
             a.update(i0u=u0, imaxu=um)
             S.append(('twin', 'T3', tuple(sorted(a.items())), (('run', 2),), ('fixed', d), 'currents_%s_%s' % (u0, um)))
+    # gear data (module, face width, worm reference diameter, elastic modulus) of the mated gears in units of their own:
+    # the recorded forces and stresses must not change
+    wopt = ((1, (('reference_diameter', 10.0),)), (2, (('module', 1.0), ('face_width', 8.0))))
+    # (no elastic modulus: the contact stress is a square root whose twin comparison needs non-linear reasoning near zero
+    # force; its unit independence is decided by C09's unit cells)
+    sopt = ((1, (('module', 1.0), ('face_width', 8.0))), (2, (('module', 1.0), ('face_width', 8.0))))
+    for (fu, du, mu, eu) in ((('m', 'cm', 'dm', 'MPa'),) if tier == 'quick' else (('m', 'cm', 'dm', 'MPa'), ('cm', 'm', 'mm', 'kPa'), ('dm', 'mm', 'cm', 'Pa'))):
+        a = dict(opt_face_width=fu, opt_reference_diameter=du, opt_module=mu, opt_elastic_modulus=eu)
+        S.append(('twin', 'T3', tuple(sorted(a.items())), (('run', 2),), None, 'gear_data_%s_%s' % (fu, du), None, wopt))
+        S.append(('twin', 'T1', tuple(sorted(a.items())), (('run', 2),), None, 'gear_data_%s_%s' % (fu, mu), None, sopt))
     # a continuation whose dt and T are expressed in another time unit than the first run
     for u in (('ms', 'min') if tier == 'quick' else ('ms', 'min', 'hour')):
         a = dict(_assignment(rnd))
@@ -272,13 +283,14 @@ def build(sp):
         return Batch('pressure_angles', [PressureAngle(*c) for c in sp[1]])
     _, topo, assignment, sched, control, tag = sp[:6]
     sb = sp[6] if len(sp) > 6 else None
-    return UnitTwin(topo, assignment, schedule=sched, control=control, tag=':' + tag if tag else '', schedule_b=sb)
+    opt = sp[7] if len(sp) > 7 else None
+    return UnitTwin(topo, assignment, schedule=sched, control=control, tag=':' + tag if tag else '', schedule_b=sb, opt=opt)
 
 
 JOB_CAP = {'quick': 900, 'thorough': 3000}
 REQUIRED_TRIGGERS = {'quick': ('same.number_of_instants', 'same.time', 'same.history', 'pa.same_outcome_in_every_unit')}
 BOUNDS = {
-    'quick': 'twin simulations (K=2; continuation 2+2 with the second run in ms / min; early stop with the threshold in another unit; the two motor currents in two different units with duty cycles 1/16, -3/32 (inside the dead zone) and 1/2) on '
+    'quick': 'twin simulations (K=2; continuation 2+2 with the second run in ms / min; early stop with the threshold in another unit; the optional gear data (module, face width, worm reference diameter) of mated gears in units of their own (recorded forces and bending stresses); the two motor currents in two different units with duty cycles 1/16, -3/32 (inside the dead zone) and 1/2) on '
              'T1/T3/T6 with 4 seeded assignments of a non-SI unit to every input quantity (inertias, no-load speed, maximum torque, '
              'currents, initial position and speed, dt and T, sensor threshold); initial position |.| <= 1e3 rad, initial speed |.| <= 1 rad/s, loads |.| <= 1 mNm (a region where the motor torque keeps its sign), duty '
              'cycle and threshold symbolic; worm gear / worm wheel construction with each of the four pressure angles given in rad, arcmin, arcsec, rot '
